@@ -65,10 +65,34 @@ def flag_guard(F, R):
     R.ob('C15.flag-guard', 'v5::default::ControlService::call|test-and-set-sites', len(edges) >= 1, 'found %d is_disconnect_sent() tests' % len(edges))
     # path-sensitive (the answer may be assembled in one place after the decisions were taken): every returning path
     # whose value is Ok(Some(packet)) carries the condition `is_disconnect_sent() == false`
-    from symex import skip_logging
-    se = SymEx(cs, F, loop_visits=1, max_paths=6000, call_model=skip_logging)
+    from symex import skip_logging, option_tests
+    def model_(nm, args, t, path):
+        r = skip_logging(nm, args, t, path)
+        return r if r is not None else option_tests(nm, args, t, path)
+    se = SymEx(cs, F, loop_visits=1, max_paths=6000, call_model=model_)
     cpaths = [p for p in se.run() if p.end[0] == 'return']
     R.ob('C15.flag-guard', 'v5::default::ControlService::call|paths-enumerated', not se.truncated and len(cpaths) >= 6, '%d paths (truncated=%s)' % (len(cpaths), se.truncated))
+    # the converse: is_disconnect_sent() is a test-and-set - a path on which it answered "not yet" (and thereby recorded a
+    # DISCONNECT as sent) must hand a packet to the io dispatcher; otherwise a later, real DISCONNECT is suppressed
+    wasted = []
+    for p in cpaths:
+        fresh = False
+        for t, c in p.conds:
+            if term_has(t, 'is_disconnect_sent'):
+                val = (c != ('eq', 0))
+                tt_ = t
+                while tt_[0] == 'un' and tt_[1] == 'Not':
+                    val = not val
+                    tt_ = tt_[2]
+                if tt_[0] == 'call' and val is False:
+                    fresh = True
+        if not fresh or not (p.ret and p.ret[0] == 'agg' and p.ret[2] == 'Ok'):
+            continue
+        inner = p.ret[3].get('0')
+        if inner is None or (inner[0] == 'agg' and inner[2] == 'None'):
+            wasted.append(p)
+    R.ob('C15.flag-guard', 'v5::default::ControlService::call|flag-recorded=>packet-returned', not wasted,
+         'the control service asks is_disconnect_sent() (which records a DISCONNECT as sent) on a path that returns no packet (e.g. a back-pressure notification): the DISCONNECT that is due later - keep-alive timeout, protocol error - is never written', cs.loc(wasted[0].blocks[-1]) if wasted else None)
     classes = {}
     for p in cpaths:
         ret = p.ret
